@@ -1,1 +1,383 @@
-/- C19 — theorems (placeholder until the property is built). -/
+/-
+  C19 — Saved products equal the computed ones and the saved configuration replays.
+
+  Theorems about the executable model `Model/Save.lean`, instantiated (section 5) with what the
+  translator regenerated from `pandora/common.py`, `pandora/output_tree_design.py` and
+  `pandora/__init__.py` on this run (`Generated/SaveTable.lean`), and with C01's model of the machine
+  for "the right files exist iff the pipeline has a validation step".
+
+  Proved for all products (any size, any number of indicators, any cell values incl. NaN), all
+  pipelines and all input sections:
+    * `bandLoop_eq`                the loop `range(1, depth + 1)` / `data[:, :, dsp - 1]` writes band k = slice k, named
+                                   after indicator k, for every depth;
+    * `saveResults_spec`           `save_results` driven by the documented table writes exactly the documented files
+                                   (names, directory, dtype, band names, values, georeferencing; right files iff the right
+                                   dataset is not empty; confidence file iff bands exist); `source_table_documented`
+                                   (decide): the table and the output tree in the source are the documented ones;
+    * `right_product_iff_validation` the right dataset is produced iff the accepted pipeline has a validation step;
+    * `refeed_spec`                the saved configuration is accepted when fed back, completes to itself, and gives the
+                                   second run the same input sections — when `main` does not write the derived right interval
+                                   into it, or the disparities are grids; `checkPipeline_fixpoint` for the pipeline section
+                                   given idempotent step checks (C05);
+    * `refeed_rejected_when_written` (F13): today, for EVERY accepted integer-disparity configuration, the saved file is refused.
+  Modelled, not verified: GeoTIFF encoding/decoding (rasterio/GDAL), json.dump/json.load, dtype casts; they are sampled by
+  the correspondence through the real `pandora.main`.
+-/
+import PandoraModel.Model.Save
+import PandoraModel.Generated.SaveTable
+import PandoraModel.Properties.C01
+
+namespace Pandora.C19
+open Pandora.Save Pandora.Dataset
+
+/-! ### 1. Bounded quantifiers, the band loop -/
+
+
+theorem allB_iff (n : Nat) (f : Nat → Bool) : allB n f = true ↔ ∀ i, i < n → f i = true := by
+  simp [allB, List.all_eq_true, List.mem_range]
+
+theorem allRC_iff (rows cols : Nat) (f : Nat → Nat → Bool) :
+    allRC rows cols f = true ↔ ∀ r, r < rows → ∀ c, c < cols → f r c = true := by
+  simp [allRC, List.all_eq_true, List.mem_range]
+
+theorem sameGrid_refl (rows cols : Nat) (a : Nat → Nat → FVal) : sameGrid rows cols a a = true := by
+  simp [sameGrid, allRC_iff]
+
+/-- **The band loop** `for dsp in range(1, depth + 1): write(data[:, :, dsp - 1], dsp)` writes, for
+    every depth, band `k` (0-based) = slice `k`, named after the `k`-th name. -/
+theorem bandLoop_eq (depth : Nat) (data : Nat → Nat → Nat → FVal) (names : Option (List String)) :
+    bandLoop depth data names =
+      (List.range depth).map fun k => { name := names.bind fun l => l[k]?, px := data k } := by
+  unfold bandLoop
+  rw [List.range'_eq_map_range, List.map_map]
+  apply List.map_congr_left
+  intro k _
+  simp
+
+theorem bandLoop_length (depth : Nat) (data) (names) : (bandLoop depth data names).length = depth := by
+  simp [bandLoop]
+
+theorem bandLoop_names (ind : List String) (data : Nat → Nat → Nat → FVal) :
+    (bandLoop ind.length data (some ind)).map (·.name) = ind.map some := by
+  rw [bandLoop_eq, List.map_map]
+  apply List.ext_getElem
+  · simp
+  · intro i h1 h2
+    simp at h1
+    simp [h1]
+
+theorem bandLoop_px (depth : Nat) (data : Nat → Nat → Nat → FVal) (names) (k : Nat) (hk : k < depth) :
+    ((bandLoop depth data names)[k]?.getD default).px = data k := by
+  rw [bandLoop_eq]
+  simp [hk]
+
+theorem bandLoop_grid (rows cols depth : Nat) (data : Nat → Nat → Nat → FVal) (names) (k : Nat) (hk : k < depth) :
+    sameGrid rows cols ((bandLoop depth data names)[k]?.getD default).px (data k) = true := by
+  rw [bandLoop_px _ _ _ k hk]
+  exact sameGrid_refl _ _ _
+
+theorem specConf_written (name : String) (p : Product) (ind : List String) (d3 : Nat → Nat → Nat → FVal)
+    (hp : p.conf = some (ind, d3)) (files : List OutFile)
+    (hf : findFile files name = some (writeDataArray "." name "float32" p.geo p.rows p.cols
+            (.inr (ind.length, fun k r c => d3 r c k)) (some ind)))
+    (hc : countFile files name = 1) :
+    (specConf files name p).all (·.2) = true := by
+  simp only [specConf, hp, hf, writeDataArray, hc]
+  simp [bandLoop_names, bandLoop_length, allB_iff]
+  intro k hk
+  exact bandLoop_grid _ _ _ _ _ k hk
+
+/-! ### 2. `save_results` -/
+
+/-- **`save_results` with the documented table writes exactly the documented files**, for every
+    pair of products: left disparity / validity always, a confidence file per side iff the side has
+    confidence bands (one band per indicator, in order, named after it), the right files iff the right
+    dataset is not empty; values, dtype, directory and georeferencing as specified. -/
+theorem saveResults_spec (left right : Product) :
+    specSave left right (saveResults documentedOtd documentedTable left right) = true := by
+  obtain ⟨lne, lr, lc, ld, lv, lconf, lgeo⟩ := left
+  obtain ⟨rne, rr, rc, rd, rv, rconf, rgeo⟩ := right
+  cases rne <;> cases lconf <;> cases rconf <;>
+    simp [specSave, specSaveClauses, saveResults, documentedTable, documentedOtd, runRow, otdDir, writeDataArray,
+      specPlain, specConf, findFile, countFile, sameGrid_refl, leftNames, rightNames,
+      bandLoop_names, bandLoop_length, allB_iff] <;>
+    (try (first
+      | (intro k hk; exact bandLoop_grid _ _ _ _ _ k hk)
+      | exact ⟨fun k hk => bandLoop_grid _ _ _ _ _ k hk, fun k hk => bandLoop_grid _ _ _ _ _ k hk⟩))
+
+/-- the table of `write_data_array` calls and the output tree in the source are the documented ones -/
+theorem source_table_documented :
+    Pandora.Generated.saveTable = documentedTable ∧ Pandora.Generated.otd = documentedOtd := by decide
+
+theorem source_saveResults_spec (left right : Product) :
+    specSave left right (saveResults Pandora.Generated.otd Pandora.Generated.saveTable left right) = true := by
+  rw [source_table_documented.1, source_table_documented.2]
+  exact saveResults_spec left right
+
+/-! ### 3. The saved configuration fed back -/
+
+theorem complete_asUser (isRight : Bool) (s : SideCfg) : complete isRight s.asUser = some s := by
+  cases s; simp [complete, SideCfg.asUser]
+
+theorem checkInput_asUser (l r : SideCfg) :
+    checkInput l.asUser r.asUser = if schemaOk l r then some (l, r) else none := by
+  simp [checkInput, complete_asUser]
+
+/-- whether the derived right interval may be written into the saved configuration without harm:
+    never for an integer interval -/
+def leftIsPath (l : SideCfg) : Bool :=
+  match l.disp with
+  | .path _ => true
+  | _ => false
+
+theorem derivedRight_of_path (l r : DispCfg) (h : ∃ s, l = .path s) : derivedRight l r = r := by
+  obtain ⟨s, rfl⟩ := h
+  cases r <;> rfl
+
+/-- **`config_refeed_accepted`, `config_refeed_same_rasters`, `config_has_margins`.**
+    For every accepted input section, the configuration `main` saves is accepted when fed back,
+    completes to itself and hands `create_dataset_from_inputs` the same two sections as the first
+    run — provided `main` does not write the derived right interval into it, or the disparities are
+    grids (nothing is derived then). -/
+theorem refeed_spec {P M} (facts : MainFacts) (l r : SideCfg) (pipeline : P) (margins : M)
+    (hacc : schemaOk l r = true) (hm : facts.addsMargins = true)
+    (hw : facts.writesRightDisp = true → leftIsPath l = true) :
+    (specRefeed l r (mainSaved facts l r pipeline margins)).all (·.2) = true := by
+  have hsaved : (mainSaved facts l r pipeline margins).right = r := by
+    simp only [mainSaved]
+    cases hwr : facts.writesRightDisp with
+    | false => simp
+    | true =>
+      have hp := hw hwr
+      simp only [if_true, effectiveRight]
+      unfold leftIsPath at hp
+      cases hd : l.disp with
+      | path s => rw [derivedRight_of_path _ _ ⟨s, rfl⟩]
+      | null => rw [hd] at hp; cases hp
+      | ints xs => rw [hd] at hp; cases hp
+      | other => rw [hd] at hp; cases hp
+  have hleft : (mainSaved facts l r pipeline margins).left = l := rfl
+  simp only [specRefeed, specRefeedObs, refeedInput, hsaved, hleft, checkInput_asUser, hacc, if_true]
+  simp [mainSaved, hm]
+
+/-- **The saved file of every integer-disparity run is refused today** (F13): when `main` writes the
+    derived interval, feeding `cfg/config.json` back fails for *every* accepted configuration whose
+    disparity is an integer pair. -/
+theorem refeed_rejected_when_written {P M} (facts : MainFacts) (l r : SideCfg) (pipeline : P) (margins : M)
+    (hacc : schemaOk l r = true) (hwr : facts.writesRightDisp = true) (xs : List Int) (hd : l.disp = .ints xs) :
+    refeedInput (mainSaved facts l r pipeline margins) = none := by
+  simp only [refeedInput, mainSaved, hwr, if_true, checkInput_asUser]
+  simp only [schemaOk, Bool.and_eq_true] at hacc
+  obtain ⟨_, hdisp⟩ := hacc
+  rw [hd] at hdisp
+  simp only [dispOk, Bool.and_eq_true] at hdisp
+  obtain ⟨hx, hr⟩ := hdisp
+  have hrn : r.disp = .null := by
+    cases hrd : r.disp <;> rw [hrd] at hr <;> simp at hr
+  match xs, hx with
+  | a :: b :: rest, _ =>
+    simp [schemaOk, effectiveRight, derivedRight, hd, hrn, dispOk]
+
+/-- **The pipeline section of the saved file completes to itself**, given that each step's check is
+    idempotent on its own output (C05 `idempotent`): the second run executes the same steps with the
+    same parameters. -/
+theorem checkPipeline_fixpoint {S} (chk : S → Option S)
+    (hidem : ∀ s s', chk s = some s' → chk s' = some s') :
+    ∀ (steps out : List (String × S)), checkPipeline chk steps = some out → checkPipeline chk out = some out := by
+  intro steps
+  induction steps with
+  | nil =>
+    intro out h
+    simp [checkPipeline] at h
+    subst h
+    simp [checkPipeline]
+  | cons kv rest ih =>
+    intro out h
+    simp only [checkPipeline, List.mapM_cons] at h
+    cases hc : chk kv.2 with
+    | none => simp [hc] at h
+    | some s' =>
+      cases hr : checkPipeline chk rest with
+      | none =>
+        simp only [checkPipeline] at hr
+        simp [hc, hr] at h
+      | some out' =>
+        have hr' := hr
+        simp only [checkPipeline] at hr
+        simp [hc, hr] at h
+        subst h
+        have := ih out' hr'
+        simp only [checkPipeline] at this
+        simp [checkPipeline, List.mapM_cons, hidem _ _ hc, this]
+
+theorem checkPipeline_names {S} (chk : S → Option S) :
+    ∀ (steps out : List (String × S)), checkPipeline chk steps = some out → out.map (·.1) = steps.map (·.1) := by
+  intro steps
+  induction steps with
+  | nil => intro out h; simp [checkPipeline] at h; subst h; rfl
+  | cons kv rest ih =>
+    intro out h
+    simp only [checkPipeline, List.mapM_cons] at h
+    cases hc : chk kv.2 with
+    | none => simp [hc] at h
+    | some s' =>
+      cases hr : checkPipeline chk rest with
+      | none => simp only [checkPipeline] at hr; simp [hc, hr] at h
+      | some out' =>
+        have hr' := hr
+        simp only [checkPipeline] at hr
+        simp [hc, hr] at h
+        subst h
+        simp [ih out' hr']
+
+/-! ### 4. The right products exist iff the pipeline has a validation step (with C01's machine model) -/
+
+section Pipeline
+open Pandora.Machine Pandora.C01
+
+
+/-- the right disparity map is produced: `disparity_run` took effect on the right data -/
+def rightDisparityRan (tr : Trace) : Bool :=
+  tr.any fun e => match e with
+    | .run cb _ _ right => cb == "disparity_run" && right
+    | _ => false
+
+def isRightEvent : Event → Bool
+  | .run _ _ _ right => right
+  | _ => false
+
+theorem stepEvents_false_noRight (n : String) (s : Nat) : ∀ e ∈ stepEvents n s false, isRightEvent e = false := by
+  intro e he
+  unfold stepEvents at he
+  split at he
+  · split at he
+    · cases he
+    · simp [sideEvents] at he; subst he; rfl
+  · simp only [List.mem_flatMap, sideEvents] at he
+    obtain ⟨cb, _, hcb⟩ := he
+    simp at hcb; subst hcb; rfl
+  · cases he
+
+theorem expectedRun_false_noRight (names : List String) (n : Nat) :
+    ∀ e ∈ expectedRun names n false, isRightEvent e = false := by
+  have hflat : ∀ (l : List String) (s : Nat), ∀ e ∈ l.flatMap (fun nm => stepEvents nm s false), isRightEvent e = false := by
+    intro l s e he
+    simp only [List.mem_flatMap] at he
+    obtain ⟨nm, _, h⟩ := he
+    exact stepEvents_false_noRight nm s e h
+  have hcoarse : ∀ k, ∀ e ∈ expectedCoarse names false k, isRightEvent e = false := by
+    intro k
+    induction k with
+    | zero => intro e he; cases he
+    | succ k ih =>
+      intro e he
+      simp only [expectedCoarse, List.mem_append] at he
+      rcases he with h | h
+      · exact hflat _ _ e h
+      · exact ih e h
+  intro e he
+  simp only [expectedRun, List.mem_append] at he
+  rcases he with h | h
+  · exact hcoarse _ e h
+  · exact hflat _ _ e h
+
+theorem rightDisparityRan_false_of_noRight (tr : Trace) (h : ∀ e ∈ tr, isRightEvent e = false) :
+    rightDisparityRan tr = false := by
+  unfold rightDisparityRan
+  rw [List.any_eq_false]
+  intro e he
+  have := h e he
+  cases e with
+  | check => simp
+  | run cb nm s r => simp [isRightEvent] at this; simp [this]
+
+theorem rightDisparityRan_true (names : List String) (n : Nat) (hd : hasKind .disparity names = true) :
+    rightDisparityRan (expectedRun names n true) = true := by
+  simp only [hasKind, List.any_eq_true] at hd
+  obtain ⟨nm, hmem, hk⟩ := hd
+  have hk' : kindOf nm = Kind.disparity.name := by simpa using hk
+  unfold rightDisparityRan
+  rw [List.any_eq_true]
+  refine ⟨Event.run "disparity_run" nm 0 true, ?_, by simp⟩
+  simp only [expectedRun, List.mem_append, List.mem_flatMap]
+  right
+  refine ⟨nm, hmem, ?_⟩
+  have : Kind.ofName? (kindOf nm) = some .disparity := by rw [hk']; decide
+  simp only [stepEvents, this, runCbsOf, List.flatMap_cons, List.flatMap_nil, List.append_nil, sideEvents, if_true]
+  have hs : Kind.disparity.name ++ "_run" = "disparity_run" := by decide
+  rw [hs]
+  simp
+
+/-- **`right_files_iff_validation`, pipeline half.**  For an accepted pipeline that computes a
+    disparity map, run on a machine that has checked it, `disparity_run` takes effect on the right
+    data — the right dataset handed to `save_results` is not empty — exactly when the pipeline has a
+    validation step. -/
+theorem right_product_iff_validation (names : List String) (n : Nat)
+    (hp : isPath .begin names = true) (hn : 1 ≤ n) (hms : 2 ≤ n → hasKind .multiscale names = true)
+    (hd : hasKind .disparity names = true) :
+    rightDisparityRan
+      (runPipeline Pandora.Generated.transitionsRun names n { rightDispMap := hasKind .validation names } []).2.2
+      = hasKind .validation names := by
+  rw [run_accepts runTable_documented names n _ rfl rfl hp hn hms rfl]
+  simp only
+  cases hv : hasKind .validation names with
+  | true => exact rightDisparityRan_true names n hd
+  | false => exact rightDisparityRan_false_of_noRight _ (expectedRun_false_noRight names n)
+
+end Pipeline
+
+/-! ### 5. The source as regenerated on this run; non-vacuity -/
+
+/-- `main` sets `cfg["margins"]` before saving -/
+theorem source_adds_margins : Pandora.Generated.mainFacts.addsMargins = true := by decide
+
+/-- the saved configuration of the source replays — unconditionally once `main` stops writing the derived
+    right interval into it (`writesRightDisp = false` makes the last hypothesis vacuous); for grid
+    disparities today -/
+theorem source_refeed_spec {P M} (l r : SideCfg) (pipeline : P) (margins : M)
+    (hacc : schemaOk l r = true)
+    (hw : Pandora.Generated.mainFacts.writesRightDisp = true → leftIsPath l = true) :
+    (specRefeed l r (mainSaved Pandora.Generated.mainFacts l r pipeline margins)).all (·.2) = true :=
+  refeed_spec _ l r pipeline margins hacc source_adds_margins hw
+
+/-- the repaired `main` (`proposed_fixes/C19-*.diff`): full-strength statement -/
+theorem fixed_refeed_spec {P M} (l r : SideCfg) (pipeline : P) (margins : M) (hacc : schemaOk l r = true) :
+    (specRefeed l r (mainSaved { writesRightDisp := false, addsMargins := true } l r pipeline margins)).all (·.2) = true :=
+  refeed_spec _ l r pipeline margins hacc rfl (fun h => by cases h)
+
+def exLeft : SideCfg := { img := "left.tif", nodata := .nan, mask := none, classif := none, segm := none, disp := .ints [-3, 2] }
+def exRight : SideCfg := { img := "right.tif", nodata := .int (-9999), mask := some "m.tif", classif := none, segm := none, disp := .null }
+def exLeftGrid : SideCfg := { exLeft with disp := .path "grid.tif" }
+
+/-- F13 on a concrete configuration: accepted, saved with `right.disp = [-2, 3]`, refused when fed back;
+    accepted with the repaired `main`, and with grids -/
+theorem refeed_current_counterexample :
+    schemaOk exLeft exRight = true ∧
+    (mainSaved (P := Unit) (M := Unit) { writesRightDisp := true, addsMargins := true } exLeft exRight () ()).right.disp = .ints [-2, 3] ∧
+    refeedInput (mainSaved (P := Unit) (M := Unit) { writesRightDisp := true, addsMargins := true } exLeft exRight () ()) = none ∧
+    refeedInput (mainSaved (P := Unit) (M := Unit) { writesRightDisp := false, addsMargins := true } exLeft exRight () ()) = some (exLeft, exRight) ∧
+    refeedInput (mainSaved (P := Unit) (M := Unit) { writesRightDisp := true, addsMargins := true } exLeftGrid exRight () ()) = some (exLeftGrid, exRight) := by
+  decide
+
+/-- non-vacuity of `refeed_spec`'s hypotheses -/
+example : schemaOk exLeftGrid exRight = true ∧ leftIsPath exLeftGrid = true := by decide
+
+/-- non-vacuity of `right_product_iff_validation` -/
+example : Pandora.Machine.isPath .begin ["matching_cost", "disparity", "filter", "validation"] = true ∧
+    Pandora.Machine.hasKind .disparity ["matching_cost", "disparity", "filter", "validation"] = true ∧
+    Pandora.Machine.hasKind .validation ["matching_cost", "disparity", "filter", "validation"] = true ∧
+    Pandora.Machine.hasKind .validation ["matching_cost", "disparity", "filter.1"] = false := by decide
+
+def exProduct : Product :=
+  { nonEmpty := true, rows := 2, cols := 2, disparity := fun r c => if r = c then .nan else .num (r - c : Int),
+    validity := fun r c => .num (64 * r + c : Nat),
+    conf := some (["confidence_from_ambiguity", "confidence_from_intensity_std"], fun r c k => .num (r + 2 * c + 3 * k : Nat)),
+    geo := "EPSG:32631|0.5" }
+
+/-- the specification discriminates: dropping the validity mask, or writing it as int16, is rejected -/
+example : specSave exProduct Product.empty (saveResults documentedOtd documentedTable exProduct Product.empty) = true ∧
+    specSave exProduct Product.empty ((saveResults documentedOtd documentedTable exProduct Product.empty).take 2) = false ∧
+    specSave exProduct exProduct (saveResults documentedOtd documentedTable exProduct Product.empty) = false := by
+  decide
+
+end Pandora.C19
